@@ -64,11 +64,18 @@ func ops(c, p *x509.Certificate, raw []byte, hosts []string, crl *pkix.Certifica
 		guard("VerifyHostname", func() { _ = c.VerifyHostname(h) })
 	}
 	// name collection
+	// (repeated: an order that leaks from a map iteration shows only in some calls)
 	var names1, names2 []string
 	guard("CollectAllNames", func() { names1 = c.CollectAllNames() })
-	guard("CollectAllNames", func() { names2 = c.CollectAllNames() })
-	if fmt.Sprint(names1) != fmt.Sprint(names2) {
-		fails = append(fails, failure{"C02:names-nondeterministic", fmt.Sprintf("CollectAllNames differs between two calls: %q vs %q", names1, names2)})
+	for i := 0; i < 12 && names2 == nil; i++ {
+		var n []string
+		guard("CollectAllNames", func() { n = c.CollectAllNames() })
+		if fmt.Sprintf("%q", names1) != fmt.Sprintf("%q", n) {
+			names2 = n
+		}
+	}
+	if names2 != nil {
+		fails = append(fails, failure{"C02:names-nondeterministic", fmt.Sprintf("CollectAllNames differs between calls on the same certificate: %q vs %q", names1, names2)})
 	}
 	guard("GetParsedDNSNames", func() { c.GetParsedDNSNames(false); c.GetParsedDNSNames(true); c.GetParsedSubjectCommonName(false) })
 	guard("SubjectAndKey", func() { _ = c.SubjectAndKey(); _ = c.Equal(p) })
